@@ -379,7 +379,7 @@ pub fn run(ctx: &Ctx, replay: Option<&J>) -> CheckResult {
             };
         }
     }
-    let lists = ctx.n(40_000, 2_000_000);
+    let lists = ctx.n(600_000, 20_000_000);
     let (mut ev, mut vs) = par_shards(48, |shard| {
         let mut ev = Evidence::new();
         ev.sample_cap = 1;
@@ -419,7 +419,7 @@ pub fn run(ctx: &Ctx, replay: Option<&J>) -> CheckResult {
         (ev, vs)
     });
     // hostile frames
-    let frames = ctx.n(30_000, 1_000_000);
+    let frames = ctx.n(300_000, 10_000_000);
     let (fev, fvs) = par_shards(32, |shard| {
         let mut ev = Evidence::new();
         ev.sample_cap = 1;
